@@ -32,6 +32,7 @@ import (
 	"github.com/smart-core-os/sc-golang/pkg/trait/enterleavesensorpb"
 	"github.com/smart-core-os/sc-golang/pkg/trait/metadatapb"
 	"github.com/smart-core-os/sc-golang/pkg/trait/parentpb"
+	"github.com/smart-core-os/sc-golang/pkg/trait/lightpb"
 	"github.com/smart-core-os/sc-golang/pkg/trait/vendingpb"
 	"github.com/smart-core-os/sc-golang/pkg/wrap"
 	lib "github.com/smart-core-os/sc-golang/verif_h/lib"
@@ -607,6 +608,15 @@ func programs() []program {
 	add("vending/one default model: CreateConsumable||CreateStock", func() {
 		v := vendingpb.NewModel()
 		par(func() { v.CreateConsumable(&traits.Consumable{}) }, func() { v.CreateStock(&traits.Consumable_Stock{}) })
+	})
+	// two callers that build their write options from one pool (a slice with room behind what each passes):
+	// the options a model adds for itself must not land in the callers' array
+	add("light/UpdateBrightness(preset)||UpdateBrightness(preset), options from one pool", func() {
+		l := lightpb.NewModel(lightpb.WithPreset(40, &traits.LightPreset{Name: "dim"}), lightpb.WithPreset(80, &traits.LightPreset{Name: "bright"}))
+		pool := make([]resource.WriteOption, 1, 4)
+		pool[0] = resource.WithUpdatePaths("preset")
+		par(func() { l.UpdateBrightness(&traits.Brightness{Preset: &traits.LightPreset{Name: "dim"}}, pool[:1]...) },
+			func() { l.UpdateBrightness(&traits.Brightness{Preset: &traits.LightPreset{Name: "bright"}}, pool[:1]...) })
 	})
 	add("vending/Dispense||GetStock||List", func() {
 		v := vendingpb.NewModel(vendingpb.WithInitialStock(&traits.Consumable_Stock{Consumable: "milk", Used: &traits.Consumable_Quantity{Unit: traits.Consumable_LITER, Amount: 1}, Remaining: &traits.Consumable_Quantity{Unit: traits.Consumable_LITER, Amount: 9}}))
